@@ -98,6 +98,7 @@ from .astutil import (
     bistr,
     is_valid_target,
     is_valid_del_target,
+    is_valid_del_target,
     reduce_ast,
 )
 
@@ -1478,7 +1479,7 @@ def _validate_put_seq(
     if check_target:
         ctx = getattr(ast, 'ctx', None)
 
-        if ctx.__class__ is not Load and not check_target(ast_.elts):
+        if (ctx_cls := ctx.__class__) is not Load and not (is_valid_del_target if ctx_cls is Del else check_target)(ast_.elts):  # `del` targets take no Starred
             raise NodeError(f'invalid slice for {ast.__class__.__name__}'
                             f'{f" {ctx.__class__.__name__}" if ctx else ""} target')
 
